@@ -24,6 +24,9 @@ type config struct {
 	// CachedFns: the harness keeps one api.Function object per instance and export instead of
 	// asking for a fresh one per call.
 	CachedFns bool `json:"cached_fns,omitempty"`
+	// Listen: modules are compiled with a FunctionListenerFactory in the context (a no-op
+	// listener on every function), so that compiled code goes through the listener trampolines.
+	Listen bool `json:"listen,omitempty"`
 }
 
 // step is one action of a history. Handles (CM, Inst, To, Call) are indices in order of creation.
@@ -212,6 +215,16 @@ func newWorld(h *history, twin bool, names *[2]map[string]int) (*world, error) {
 	return w, nil
 }
 
+// compileCtx is the context of CompileModule / InstantiateWithConfig.
+func (w *world) compileCtx(ctx context.Context) context.Context {
+	if !w.cfg.Listen {
+		return ctx
+	}
+	return experimental.WithFunctionListenerFactory(ctx, experimental.FunctionListenerFactoryFunc(func(api.FunctionDefinition) experimental.FunctionListener {
+		return experimental.FunctionListenerFunc(func(context.Context, api.Module, api.FunctionDefinition, []uint64, experimental.StackIterator) {})
+	}))
+}
+
 func classifyPanic(r any) wz.Outcome {
 	return wz.Outcome{Kind: wz.KInternal, Detail: fmt.Sprintf("panic escaped the API: %v", r)}
 }
@@ -228,7 +241,7 @@ func (w *world) compile(rt, spec int) (o obs) {
 		return obs{Out: wz.Outcome{Kind: wz.KOther, Detail: "skipped: runtime dropped"}}
 	}
 	wdEnter("CompileModule", -1, fmt.Sprintf("rt%d spec%d", rt, spec))
-	cm, err := w.rts[rt].CompileModule(w.ctx, w.bins[spec])
+	cm, err := w.rts[rt].CompileModule(w.compileCtx(w.ctx), w.bins[spec])
 	wdLeave()
 	if err != nil {
 		w.cms = append(w.cms, nil)
@@ -286,7 +299,7 @@ func (w *world) instBytes(rt, spec int, name string) (o obs) {
 		}
 	}()
 	wdEnter("InstantiateWithConfig", len(w.insts), name)
-	mod, err := w.rts[rt].InstantiateWithConfig(w.instCtx(rt), w.bins[spec], w.modCfg(name))
+	mod, err := w.rts[rt].InstantiateWithConfig(w.compileCtx(w.instCtx(rt)), w.bins[spec], w.modCfg(name))
 	wdLeave()
 	if err != nil {
 		w.insts = append(w.insts, nil)
